@@ -404,7 +404,15 @@ def _check_aggregate(case):
     if discard is not None:
         kwargs["discard_missing"] = discard
     if select is not None:
-        kwargs["select"] = list(select)
+        # the same selection as a list, a tuple or an integer array (chosen from the case, no extra draw)
+        how = (sum(select) + len(select) + len(repr(case["x"]))) % 3
+        if how == 0:
+            kwargs["select"] = list(select)
+        elif how == 1:
+            kwargs["select"] = tuple(select)
+        else:
+            import numpy as _np_
+            kwargs["select"] = _np_.array(select, dtype=int)
     tag = "aggregate:select" if select is not None else f"aggregate:{method}"
     before = _snapshot(x)
     if case["form"] == "function":
